@@ -335,7 +335,7 @@ def r7(ctx, prog, eng, ctxs):
 
 
 def run(ctx):
-    prog = extract(SCOPE)
+    prog = extract('ALL' if ctx.tier == 'thorough' else SCOPE)
     eng, ctxs, anyf, loopf = setup(prog)
     ctx.guard(r1, ctx, prog, eng, ctxs)
     ctx.guard(r2, ctx, prog, eng)
